@@ -100,22 +100,30 @@ Proof.
   cbn [items_text]. rewrite <- !app_assoc. exact Ht.
 Qed.
 
+(** where a repetition over items stops: before the gap of the last item (or, with no further item, before [g]) *)
+Definition dflt_item : item := (([], []), fun _ => []).
+Definition tailgap (g : str) (its : list item) : str :=
+  match its with [] => g | _ => it_gap (last its dflt_item) end.
+Lemma tailgap_cons g it r : tailgap g (it :: r) = tailgap (it_gap it) r.
+Proof. destruct r; reflexivity. Qed.
+
 (** (skip x)* over the remaining items: ends somewhere inside the trivia before the closing literal
     (pest leaves the last skipped gap unconsumed; after a single item the unconditional skip of e+ is kept) *)
 Lemma items_reps : forall its g, items_ok its -> ws g = true ->
-  exists g' m, ws g' = true /\ m + slen g' = slen g + slen (items_text its) /\
-    (exists c, g ++ items_text its = c ++ g') /\
+  exists m, ws (tailgap g its) = true /\ m + slen (tailgap g its) = slen g + slen (items_text its) /\
+    (exists c, g ++ items_text its = c ++ tailgap g its) /\
     forall i, repss G true ANon x (g ++ items_text its ++ close ++ rest) i
-      (Ok (g' ++ close ++ rest, i + m, items_trees its (i + slen g))).
+      (Ok (tailgap g its ++ close ++ rest, i + m, items_trees its (i + slen g))).
 Proof.
   induction its as [|it r IH]; intros g Hall Hg.
-  - exists g, 0. split; [exact Hg|]. split; [cbn [items_text]; change (slen []) with 0; lia|].
+  - exists 0. cbn [tailgap]. split; [exact Hg|]. split; [cbn [items_text]; change (slen []) with 0; lia|].
     split; [exists []; cbn [items_text]; rewrite app_nil_r; reflexivity|].
     intros i. rewrite N.add_0_r.
     cbn [items_text items_trees app]. eapply repssS_stop; [apply skip_ws; [exact Hg|exact close_token]|apply x_stops].
   - destruct Hall as [[Hgap [Htok Hrun]] Hr].
-    destruct (IH (it_gap it) Hr Hgap) as [g' [m [Hg' [Hm [[c Hc] Hreps]]]]].
-    exists g', (slen g + slen (it_text it) + m). split; [exact Hg'|]. split; [cbn [items_text]; rewrite !slen_app; lia|].
+    destruct (IH (it_gap it) Hr Hgap) as [m [Hg' [Hm [[c Hc] Hreps]]]].
+    rewrite tailgap_cons.
+    exists (slen g + slen (it_text it) + m). split; [exact Hg'|]. split; [cbn [items_text]; rewrite !slen_app; lia|].
     split; [exists (g ++ it_text it ++ c); cbn [items_text]; rewrite <- !app_assoc, <- Hc; reflexivity|].
     intros i.
     assert (Htxt : g ++ items_text (it :: r) ++ close ++ rest = g ++ (it_text it ++ it_gap it ++ (items_text r ++ close ++ rest))).
@@ -126,17 +134,17 @@ Proof.
     eapply repssS_step; [apply skip_ws; [exact Hg|exact Htok]|apply Hrun|apply Hreps].
 Qed.
 
-(** x+ ~ "close" over a non-empty list of items *)
+(** x+ alone (no closing literal): where it stops is one of pest's quirks *)
 Lemma items_plus it its : items_ok (it :: its) ->
-  exists g2 m, ws g2 = true /\ m + slen g2 = slen (it_text it) + slen (it_gap it) + slen (items_text its) /\
-    (exists c, it_text it ++ it_gap it ++ items_text its = c ++ g2) /\
+  exists m, ws (tailgap [] its) = true /\ m + slen (tailgap [] its) = slen (it_text it) + slen (it_gap it) + slen (items_text its) /\
+    (exists c, it_text it ++ it_gap it ++ items_text its = c ++ tailgap [] its) /\
     forall i, runs G true ANon (Plus x) (it_text it ++ it_gap it ++ (items_text its ++ close ++ rest)) i
-                (Ok (g2 ++ close ++ rest, i + m, items_trees (it :: its) i)).
+                (Ok (tailgap [] its ++ close ++ rest, i + m, items_trees (it :: its) i)).
 Proof.
   intros [[Hgap [Htok Hrun]] Hr].
   pose proof (items_tail_token its Hr) as Hk.
   destruct its as [|it2 r2].
-  - exists [], (slen (it_text it) + slen (it_gap it)). split; [reflexivity|]. split; [cbn [items_text]; change (slen []) with 0; lia|].
+  - exists (slen (it_text it) + slen (it_gap it)). cbn [tailgap]. split; [reflexivity|]. split; [cbn [items_text]; change (slen []) with 0; lia|].
     split; [exists (it_text it ++ it_gap it); cbn [items_text]; rewrite !app_nil_r; reflexivity|].
     intros i. apply runs_Plus_g. cbn [items_text items_trees app] in *.
     replace (it_tree it i ++ []) with (it_tree it i ++ @nil pr ++ @nil pr) by reflexivity.
@@ -144,8 +152,9 @@ Proof.
     eapply (runs_SeqS_ok gse gse_eq); [apply Hrun|apply skip_ws; [exact Hgap|exact Hk]|].
     apply runs_Star_stop. apply x_stops.
   - destruct Hr as [[Hgap2 [Htok2 Hrun2]] Hr2].
-    destruct (items_reps r2 (it_gap it2) Hr2 Hgap2) as [g3 [m3 [Hg3 [Hm3 [[c3 Hc3] Hreps3]]]]].
-    exists g3, (slen (it_text it) + slen (it_gap it) + slen (it_text it2) + m3). split; [exact Hg3|]. split; [cbn [items_text]; rewrite !slen_app; lia|].
+    destruct (items_reps r2 (it_gap it2) Hr2 Hgap2) as [m3 [Hg3 [Hm3 [[c3 Hc3] Hreps3]]]].
+    rewrite tailgap_cons.
+    exists (slen (it_text it) + slen (it_gap it) + slen (it_text it2) + m3). split; [exact Hg3|]. split; [cbn [items_text]; rewrite !slen_app; lia|].
     split; [exists (it_text it ++ it_gap it ++ it_text it2 ++ c3); cbn [items_text]; rewrite <- !app_assoc, <- Hc3; reflexivity|].
     intros i. apply runs_Plus_g.
     replace (items_trees (it :: it2 :: r2) i) with (it_tree it i ++ @nil pr ++ (it_tree it2 (i + slen (it_text it) + slen (it_gap it)) ++ items_trees r2 (i + slen (it_text it) + slen (it_gap it) + slen (it_text it2) + slen (it_gap it2)))) by reflexivity.
@@ -162,7 +171,7 @@ Lemma items_plus_close it its i : items_ok (it :: its) ->
   runs G true ANon (Seq (Plus x) (Lit close)) (items_text (it :: its) ++ close ++ rest) i
     (Ok (rest, i + slen (items_text (it :: its)) + slen close, items_trees (it :: its) i)).
 Proof.
-  intros Hok. destruct (items_plus it its Hok) as [g2 [m [Hg2 [Hm [_ Hplus]]]]].
+  intros Hok. destruct (items_plus it its Hok) as [m [Hg2 [Hm [_ Hplus]]]]. set (g2 := tailgap [] its) in *.
   assert (Htxt : items_text (it :: its) ++ close ++ rest = it_text it ++ it_gap it ++ (items_text its ++ close ++ rest)).
   { cbn [items_text]. rewrite <- !app_assoc. reflexivity. }
   rewrite Htxt.
